@@ -340,7 +340,8 @@ def hdr_body(ctx, start, offsets):
         conn.session_key_bytes = b"K" * 16     # an established session: datagrams are sealed
         base = M * 4 + start
         newest = None
-        accepted = set()   # integer-line positions accepted by the endpoint (model)
+        accepted = set()   # integer-line positions accepted by the endpoint (model), pruned to the window
+        ever_accepted = set()
         msgseq = 0
         flags = set()
         for d in offsets:
@@ -362,11 +363,14 @@ def hdr_body(ctx, start, offsets):
                 exp = pos not in accepted
                 flags.add("dup" if not exp else "reorder")
             else:
-                exp = None  # older than the window: acceptance is C04's concern, not the ack fields'
+                # older than the window: a first arrival may be accepted or dropped (C04's concern), but a datagram
+                # that WAS already accepted must never be accepted a second time, wherever the window has moved to
+                exp = False if pos in ever_accepted else None
                 flags.add("stale")
             if exp is not None and bool(ok) != exp:
                 ctx.violation("window-accept", "datagram seq %d (offset %+d): accepted=%r model=%r" % (ring(pos), d, ok, exp))
             if (exp is True) or (exp is None and ok):
+                ever_accepted.add(pos)
                 if newest is None or pos > newest:
                     if newest is not None and pos - newest > 1:
                         flags.add("gap")
